@@ -61,6 +61,7 @@ type VC struct {
 	key      string
 	contract *Contract
 	effective *Contract // contract merged with the inherited interface-level contract
+	guards    []guardLV // guarded targets of the thread under verification (lockset discipline)
 	arrays   map[string]Sort
 	obls     []*Obligation
 	concTypes map[int]types.Type
@@ -363,6 +364,15 @@ func (e *Env) lvals(x ast.Expr) []LV {
 			se := &Env{vc: vc, pkg: sf.Pkg, vars: map[string]TV{}, heap: e.heap, old: e.old}
 			return se.lvals(sf.Body)
 		}
+		if e.cellPtr != nil {
+			if _, isVar := e.vars[x.Name]; !isVar {
+				if ptr, et, ok := e.cellPtr(x.Name); ok {
+					s := sortOf(et)
+					vc.hget(e.heap, cellArr(s), arrSort(s))
+					return []LV{{Arr: cellArr(s), Sort: arrSort(s), Idx: ptr}}
+				}
+			}
+		}
 		if o := e.lookupObj(x.Name); o != nil {
 			if v, ok := o.(*types.Var); ok && v.Parent() == v.Pkg().Scope() {
 				s := sortOf(v.Type())
@@ -447,13 +457,23 @@ func (e *Env) lvals(x ast.Expr) []LV {
 				sv := e.tr(x.Args[0])
 				vc.hget(e.heap, "Tags", tagsSort)
 				return []LV{{Arr: "Tags", Sort: tagsSort, Idx: app("sid", sv.T)}}
+			case "allmaps":
+				// allmaps(map[K]V): the contents of every Go map of that type (frames of callbacks that reach arbitrary objects)
+				mt, ok := x.Args[0].(*ast.MapType)
+				if !ok {
+					e.fail(x, "allmaps(map[K]V)")
+				}
+				ks, vs := e.resolveType(mt.Key).Sort, e.resolveType(mt.Value).Sort
+				vc.hget(e.heap, mapDomArr(ks, vs), mapDomSort(ks))
+				vc.hget(e.heap, mapValArr(ks, vs), mapValSort(ks, vs))
+				return []LV{{Arr: mapDomArr(ks, vs), Sort: mapDomSort(ks), Whole: true}, {Arr: mapValArr(ks, vs), Sort: mapValSort(ks, vs), Whole: true}}
 			case "mapcontents":
 				m := e.tr(x.Args[0])
 				mt := types.Unalias(m.S.Go).Underlying().(*types.Map)
 				ks, vs := sortOf(mt.Key()), sortOf(mt.Elem())
-				vc.hget(e.heap, mapDomArr(ks), mapDomSort(ks))
+				vc.hget(e.heap, mapDomArr(ks, vs), mapDomSort(ks))
 				vc.hget(e.heap, mapValArr(ks, vs), mapValSort(ks, vs))
-				return []LV{{Arr: mapDomArr(ks), Sort: mapDomSort(ks), Idx: m.T}, {Arr: mapValArr(ks, vs), Sort: mapValSort(ks, vs), Idx: m.T}}
+				return []LV{{Arr: mapDomArr(ks, vs), Sort: mapDomSort(ks), Idx: m.T}, {Arr: mapValArr(ks, vs), Sort: mapValSort(ks, vs), Idx: m.T}}
 			}
 			if fr, ok := vc.specs.Frames[id.Name]; ok {
 				fe := &Env{vc: vc, pkg: fr.Pkg, vars: map[string]TV{}, heap: e.heap, old: e.old, tparams: e.tparams, facts: e.facts}
